@@ -112,8 +112,32 @@ def render_ref(case):
     return s + "()" if ref[-1] in FN_NAMES else s
 
 
+SIB_FORMS = ["plain", "else", "then", "arm1", "arm2", "after"]
+
+
+def place(form, inner_b, inner_s):
+    """B(i) and its sibling scope S(i) inside the enclosing block, as the construct `form` (B is executed and is the
+    value of the construct; S is type checked but never run or run for nothing)."""
+    if form == "plain":
+        return ("{ %s }; " % inner_s if inner_s else "") + "{ %s }" % inner_b
+    s = inner_s or "0"
+    if form == "else":
+        return "if 1 == 2 { %s } else { %s }" % (s, inner_b)
+    if form == "then":
+        return "if 1 == 1 { %s } else { %s }" % (inner_b, s)
+    if form == "arm1":
+        return "match Option.Some(1) { Some(w9) => { %s } None => { %s } }" % (inner_b, s)
+    if form == "arm2":
+        return "match Option.Some(1) { None => { %s } Some(w9) => { %s } }" % (s, inner_b)
+    if form == "after":
+        return "let r9 = { %s }; { %s }; r9" % (inner_b, s)
+    raise ValueError(form)
+
+
 def render_probe(case, variant):
     depth = case["depth"]
+    forms = case.get("forms") or ["plain"] * 3
+    sibs = case.get("sibs") or []
 
     def stuff(i):
         s = render_imports(case, ("b", (), i), variant)
@@ -122,13 +146,20 @@ def render_probe(case, variant):
                 s.append("let %s = %d;" % (l["n"], 900 + i))
         return s
 
+    def sib_stuff(i):
+        s = render_imports(case, ("s", (), i), variant)
+        for l in sibs:
+            if l["i"] == i:
+                s.append("let %s = %d;" % (l["n"], 960 + i))
+        return " ".join(s + ["0"]) if s else ""
+
     def has_stuff_from(i):
-        return any(stuff(j) for j in range(i, 4))
+        return any(stuff(j) or sib_stuff(j) for j in range(i, 4))
 
     def closed(i):
         s = stuff(i)
         if i < 3 and has_stuff_from(i + 1):
-            s.append("{ " + closed(i + 1) + " };")
+            s.append(place("plain", closed(i + 1), sib_stuff(i + 1)) + ";")
         s.append("0")
         return " ".join(s)
 
@@ -136,10 +167,10 @@ def render_probe(case, variant):
         s = stuff(i)
         if i == depth:
             if i < 3 and has_stuff_from(i + 1):
-                s.append("{ " + closed(i + 1) + " };")
+                s.append(place("plain", closed(i + 1), sib_stuff(i + 1)) + ";")
             s.append(render_ref(case))
         else:
-            s.append("{ " + block(i + 1) + " }")
+            s.append(place(forms[i], block(i + 1), sib_stuff(i + 1)))     # forms[i]: the construct of level i + 1
         return " ".join(s)
 
     param = "p0"
@@ -189,7 +220,8 @@ def describe(case):
         [(".".join(i["path"]), i["sc"]["t"] + str(i["sc"]["i"] or ".".join(["pkg"] + list(i["sc"]["p"]))))
          for i in case["imps"]],
         [(l["n"], l["i"], "param" if l["param"] else "let") for l in case["locals"]], case["depth"],
-        ".".join(case["ref"]))
+        ".".join(case["ref"])) + (" sibling-lets=%s forms=%s" % ([(l["n"], l["i"]) for l in case.get("sibs") or []], case.get("forms"))
+                                  if (case.get("sibs") or (case.get("forms") or ["plain"] * 3) != ["plain"] * 3) else "")
 
 
 def abstract(it):
@@ -197,6 +229,8 @@ def abstract(it):
         return "item %s" % ".".join(["pkg"] + list(it["p"]) + [it["n"]])
     if it["k"] == "local":
         return "local %s at block level %d" % (it["n"], it["i"])
+    if it["k"] == "sib":
+        return "local %s of the SIBLING scope of block level %d" % (it["n"], it["i"])
     return it["k"]
 
 
@@ -219,6 +253,9 @@ def observed(case, tags, o):
     for l in case["locals"]:
         if local_tag(case, l["i"]) == t:
             return {"k": "local", "p": [], "n": l["n"], "i": l["i"]}
+    for l in case.get("sibs") or []:
+        if 960 + l["i"] == t:
+            return {"k": "sib", "p": [], "n": l["n"], "i": l["i"]}
     return None
 
 
@@ -320,13 +357,15 @@ def plan(tier):
                 ("alias4", ["alias4"], FAMILIES, "none", ["same"], 16, s % 16),
                 ("pkgdir", ["pkgdir"], ["path", "modimp"], "none", ["same"], 4, s % 4),
                 ("chain3", CHAIN_TREES, ["chain3"], "none", ["same"], 1, 0),
-                ("inout", ["io4"], ["inout"], "none", ["same"], 1, 0)]
+                ("inout", ["io4"], ["inout"], "none", ["same"], 1, 0),
+                ("sib", ["io4"], ["sib"], "none", ["same"], 8, s % 8)]
     return [("t3", ["deep3", "wide3", "dir3"], FAMILIES, "none", ["same"], 1, 0),
             ("wide3g", ["wide3"], ["list", "imp1"], "none", ["all"], 1, 0),
             ("alias4", ["alias4"], FAMILIES, "none", ["same"], 1, 0),
             ("pkgdir", ["pkgdir"], ["path", "imp1", "modimp", "chain"], "none", ["same"], 1, 0),
             ("chain3", CHAIN_TREES, ["chain3"], "none", ["same"], 1, 0),
             ("inout", ["io4"], ["inout"], "none", ["same"], 1, 0),
+            ("sib", ["io4", "deep3"], ["sib"], "none", ["same"], 1, 0),
             ("mix4", ["mix4"], FAMILIES, "none", ["same"], 2, s % 2),
             ("full6", ["full6"], FAMILIES, "none", ["same"], 12, s % 12),
             ("full7", ["full7"], FAMILIES, "none", ["same"], 32, s % 32),
@@ -367,7 +406,19 @@ def spec_to_impl(tier, ev, verd, stats):
             for nm in (sorted(c["outer"]) or ["none"]):
                 key = "%s:%s:outer-%s" % (order, lvl, nm)
                 chain_count[key] = chain_count.get(key, 0) + 1
-    missing = [f for f in FAMILIES + ["disc", "chain3", "chain2", "inout"] if not fam_count.get(f)] + [r for r in REQUIRED_RULES if not rule_count.get(r)]
+    # sibling scopes: for every construct, cases in which a lookup leaking into the sibling would change the outcome
+    sib_count = {}
+    for c in cases:
+        if c["fam"] == "sib" and c["sibsens"]:
+            for lvl in (2, 3):
+                f = c["forms"][lvl - 1]
+                if f != "plain" or any(l["i"] == lvl for l in c["sibs"]) or any(im["sc"]["t"] == "s" and im["sc"]["i"] == lvl for im in c["imps"]):
+                    key = "%s@%d:%s" % (f, lvl, c["exp"]["k"])
+                    sib_count[key] = sib_count.get(key, 0) + 1
+    ev.extra["sibling_scope_classes"] = sib_count
+    missing = [f for f in FAMILIES + ["disc", "chain3", "chain2", "inout", "sib"] if not fam_count.get(f)]
+    missing += ["sibling " + k for k in ["%s@%d:%s" % (f, lvl, e) for f in SIB_FORMS for lvl in (2, 3) for e in ("item", "err")]
+                if not sib_count.get(k)] + [r for r in REQUIRED_RULES if not rule_count.get(r)]
     # chain-3 x all six orders x same-named module/item in the enclosing scope for each introduced name (block level;
     # the enclosing scope of a module is the global scope, which holds none of these names), and without any
     missing += ["chain3 " + k for k in ["%s:block:outer-%s" % (o, nm) for o in CHAIN_ORDERS for nm in ("a", "b", "f", "none")]
@@ -502,6 +553,17 @@ def random_config(rng):
                 add(sc, mp + [n2], grp)
         else:
             add(sc, write(t, frm) + [name])
+    # sibling scopes: the other branch / another arm / a block before or after block level i
+    sibs, forms = [], ["plain", "plain", "plain"]
+    if rng.random() < 0.35:
+        for i in rng.sample([2, 3], rng.choice([1, 1, 2])):
+            forms[i - 1] = rng.choice(SIB_FORMS)
+            if rng.random() < 0.6:
+                sibs.append({"i": i, "n": rng.choice(["k", "k", "f", "a", "b"])})
+            if rng.random() < 0.5:
+                t, name = pick_target()
+                sc = {"t": "s", "p": [], "i": i}
+                add(sc, write(t, site) + ([name] if rng.random() < 0.75 or not t else []))
     locals_ = []
     if rng.random() < 0.3:
         for i in rng.sample([1, 2, 3], rng.choice([1, 1, 2])):
@@ -511,6 +573,10 @@ def random_config(rng):
     t, name = pick_target()
     if locals_ and rng.random() < 0.6:
         name = rng.choice([l["n"] for l in locals_ if l["n"] in ("f", "k")] or ["k"])
+    elif sibs and rng.random() < 0.6:
+        name = rng.choice([l["n"] for l in sibs if l["n"] in ("f", "k")] or ["k"])
+        if rng.random() < 0.7:
+            depth = max(depth, max(l["i"] for l in sibs))
     mod_aliases = [a for a in aliases if a in NAMES3]
     item_aliases = [a for a in aliases if a not in NAMES3]
     up = [im for im in imps if im["sc"]["t"] == "m" and site and P(im["sc"]["p"]) == site[:len(P(im["sc"]["p"]))]
@@ -529,7 +595,7 @@ def random_config(rng):
     else:
         ref = write(t, site) + [name]
     return {"fam": "random", "files": files, "mods": [list(m) for m in mods], "items": items, "site": list(site),
-            "imps": imps, "locals": locals_, "depth": depth, "ref": ref,
+            "imps": imps, "locals": locals_, "depth": depth, "ref": ref, "sibs": sibs, "forms": forms,
             "exports": [{"p": it["p"], "n": it["n"], "present": True} for it in items if it["n"] in FN_NAMES]}
 
 
@@ -568,7 +634,8 @@ def impl_to_spec(tier, ev, verd, stats):
                                     {"case": c, "result": res})
                     got.append({"p": e["p"], "n": e["n"], "present": t is not None})
             events.append({"route": route, "files": c["files"], "items": c["items"], "site": c["site"], "imps": c["imps"],
-                           "locals": c["locals"], "depth": c["depth"], "ref": c["ref"], "obs": obs, "got": got})
+                           "locals": c["locals"], "depth": c["depth"], "ref": c["ref"], "sibs": c["sibs"], "forms": c["forms"],
+                           "obs": obs, "got": got})
             ev.impl_actions.add("observe:" + obs["k"])
     d = vlib.workdir(PID, "trace")
     path = os.path.join(d, "trace_%s.ndjson" % tier)
